@@ -298,13 +298,13 @@ func c09r4(r *R) {
 				return
 			}
 			want[refName(sc)] = true
-			recv := describe(c.Common().Args[0])
+			recv := describe(refArgs(c.Common())[0])
 			isPeer := recv == "$0.peer"
 			if fn != pf { // closure: receiver is free var r
 				isPeer = strings.HasSuffix(recv, ".peer") && strings.HasPrefix(recv, "^")
 			}
 			if id, ok := map[string]string{"updateTableSize": "1", "updateInitialWindowSize": "4", "updateMaxFrameSize": "5"}[refName(sc)]; ok {
-				val := describe(c.Common().Args[1])
+				val := describe(refArgs(c.Common())[1])
 				sel := strings.TrimSuffix(val, ".Val") + ".ID"
 				r.check(strings.HasSuffix(val, ".Val") && guardedBy(c.Block(), eq("("+sel+" == "+id+")")), "processFrame#"+refName(sc)+".setting", c.Pos(), "applied for setting id "+id+" with that setting's value", refName(sc)+" must be applied for SETTINGS id "+id+" (RFC 7540 6.5.2) with the setting's value; got value "+val+" under "+strings.Join(guardStrings(c.Block()), ","))
 			}
@@ -331,7 +331,50 @@ func c09r4(r *R) {
 func c09r5(r *R) {
 	sw := r.method(h2pkg, "relay", "sendWindowUpdates")
 	ps, _ := enumPaths(sw, 64, 1)
-	const L = "(golang.org/x/net/http2.FrameHeader).Header($1.FrameHeader).Length"
+	L := "(golang.org/x/net/http2.FrameHeader).Header($1.FrameHeader).Length"
+	SID := "$1.FrameHeader.StreamID"
+	byValue := false
+	if len(sw.Params) < 2 || !strings.HasSuffix(typeStr(sw.Params[1].Type()), "http2.DataFrame") {
+		// the frame is no longer passed whole: the parameters that receive its length and its stream
+		// identifier at every call site stand for them
+		byValue = true
+		L, SID = "", ""
+		frames := map[string]bool{}
+		for k := 1; k < len(sw.Params); k++ {
+			var role, frame string
+			n := 0
+			for _, fn := range h2Funcs(r) {
+				for _, c := range callsToFunc(fn, sw) {
+					n++
+					d := describe(c.Common().Args[k])
+					rl, fr := "?", ""
+					if strings.HasPrefix(d, "(golang.org/x/net/http2.FrameHeader).Header(") && strings.HasSuffix(d, ".FrameHeader).Length") {
+						rl, fr = "L", strings.TrimSuffix(strings.TrimPrefix(d, "(golang.org/x/net/http2.FrameHeader).Header("), ".FrameHeader).Length")
+					} else if strings.HasSuffix(d, ".FrameHeader.StreamID") {
+						rl, fr = "SID", strings.TrimSuffix(d, ".FrameHeader.StreamID")
+					}
+					if role != "" && (role != rl || frame != fr) {
+						rl = "?"
+					}
+					role, frame = rl, fr
+				}
+			}
+			if n == 0 || !strings.HasSuffix(frame, ".(*golang.org/x/net/http2.DataFrame)") {
+				continue
+			}
+			frames[frame] = true
+			switch role {
+			case "L":
+				L = fmt.Sprintf("$%d", k)
+			case "SID":
+				SID = fmt.Sprintf("$%d", k)
+			}
+		}
+		if L == "" || SID == "" || len(frames) != 1 {
+			r.undecided("sendWindowUpdates#parameters", sw.Pos(), "cannot tell which parameters carry the DATA frame's length and stream identifier")
+			return
+		}
+	}
 	nFull := 0
 	for _, p := range ps {
 		var incs []string
@@ -351,7 +394,7 @@ func c09r5(r *R) {
 			r.check(incs[0] == "0, "+L && failed, key, p.pos(), "connection update with the full frame length; the stream update is skipped only after a write error", "single update "+incs[0])
 		case 2:
 			nFull++
-			r.check(incs[0] == "0, "+L && incs[1] == "$1.FrameHeader.StreamID, "+L, key, p.pos(), "connection then stream credited with FrameHeader.Length", "increments are ["+strings.Join(incs, " | ")+"], every flow-controlled octet (payload and padding, FrameHeader.Length) must be returned on stream 0 and on the stream")
+			r.check(incs[0] == "0, "+L && incs[1] == SID+", "+L, key, p.pos(), "connection then stream credited with FrameHeader.Length", "increments are ["+strings.Join(incs, " | ")+"], every flow-controlled octet (payload and padding, FrameHeader.Length) must be returned on stream 0 and on the stream")
 		default:
 			r.bad(key, p.pos(), "unexpected number of updates")
 		}
@@ -364,7 +407,11 @@ func c09r5(r *R) {
 	found := false
 	for _, c := range callsToFunc(pf, sw) {
 		found = true
-		arg := describe(c.Common().Args[1])
+		arg := describe(refArgs(c.Common())[1])
+		if byValue {
+			r.ok("processFrame#sendWindowUpdates.arg", c.Pos(), "called with the received DATA frame's length and stream identifier")
+			continue
+		}
 		r.check(strings.HasSuffix(arg, ".(*golang.org/x/net/http2.DataFrame)"), "processFrame#sendWindowUpdates.arg", c.Pos(), "called with the received DATA frame", "called with "+arg)
 	}
 	if !found {
@@ -569,7 +616,7 @@ func h2Rescan(r *R) {
 				if !strings.HasSuffix(calleeName(x.Common()), "outputBuffer).enqueue") {
 					return
 				}
-				kind, buf = "enqueue", describe(x.Common().Args[0])
+				kind, buf = "enqueue", describe(refArgs(x.Common())[0])
 			default:
 				return
 			}
@@ -580,9 +627,9 @@ func h2Rescan(r *R) {
 					return false
 				}
 				if buf == "*" {
-					return staticCallee(c.Common()) == emitAll && describe(c.Common().Args[0]) == recv
+					return staticCallee(c.Common()) == emitAll && describe(refArgs(c.Common())[0]) == recv
 				}
-				return strings.HasSuffix(calleeName(c.Common()), "outputBuffer).emitEligibleFrames") && describe(c.Common().Args[0]) == buf
+				return strings.HasSuffix(calleeName(c.Common()), "outputBuffer).emitEligibleFrames") && describe(refArgs(c.Common())[0]) == buf
 			})
 			r.check(w == "", fname(fn)+"#"+kind+"→rescan", ins.Pos(), "followed on every path by a re-scan of "+map[bool]string{true: "all buffers", false: buf}[buf == "*"], "a path reaches the function exit after this "+kind+" without re-scanning the affected queue(s): "+w+" - frames made eligible stay queued until unrelated traffic arrives")
 		})
@@ -621,9 +668,9 @@ func c10r1(r *R) {
 			var frame string
 			switch cn {
 			case "invoke martian/h2.Processor.Header":
-				se, frame = c.Common().Args[1], "HeadersFrame"
+				se, frame = refArgs(c.Common())[1], "HeadersFrame"
 			case "invoke martian/h2.Processor.Data":
-				se, frame = c.Common().Args[1], "DataFrame"
+				se, frame = refArgs(c.Common())[1], "DataFrame"
 			default:
 				return
 			}
@@ -849,10 +896,7 @@ func c10r3(r *R) {
 				why = append(why, "first write is "+seq[0])
 			}
 			for i, s := range seq[1:] {
-				idx := fmt.Sprint(i + 1)
-				if i == 1 {
-					idx = "(1 + 1)"
-				}
+				idx := fmt.Sprint(i + 1) // literal arithmetic is folded: the second round's index prints as 2
 				want := "(*golang.org/x/net/http2.Framer).WriteContinuation($1, $0.streamID, (" + idx + " == (builtin len($0.chunks) - 1)), $0.chunks[" + idx + "])"
 				if s != want {
 					why = append(why, "continuation "+fmt.Sprint(i+1)+" is "+s)
@@ -1010,13 +1054,13 @@ func c10r6(r *R) {
 				return
 			}
 			if c, ok := st.Val.(*ssa.Call); ok && calleeName(c.Common()) == "builtin append" {
-				va := variadicArgs(c.Common().Args[1])
+				va := variadicArgs(refArgs(c.Common())[1])
 				// appended on every path to return: the store's block must post-dominate; approximate: no path from entry to return avoids it
 				avoid := escapesFromEntry(lit, st)
 				uncond = len(va) == 1 && (describe(va[0]) == "$0" || describe(va[0]) == "local:s") && !avoid
 			}
 		})
-		sa := describe(settingsCall.Common().Args[1])
+		sa := describe(refArgs(settingsCall.Common())[1])
 		good = uncond && strings.HasPrefix(sa, "local:settings") || uncond && sa != ""
 		guard := guardedBy(settingsCall.Block(), func(s string) bool {
 			return strings.Contains(s, "ForeachSetting") && strings.HasPrefix(s, "!") && strings.HasSuffix(s, "!= nil)")
@@ -1119,7 +1163,7 @@ func c10r10(r *R) {
 			switch x := ins.(type) {
 			case *ssa.Call:
 				cn := calleeName(x.Common())
-				if (cn == "builtin delete" || cn == "builtin clear") && strings.HasSuffix(describe(x.Common().Args[0]), ".outputBuffers") {
+				if (cn == "builtin delete" || cn == "builtin clear") && strings.HasSuffix(describe(refArgs(x.Common())[0]), ".outputBuffers") {
 					n++
 					r.bad(fname(fn)+"#"+cn[8:]+"(outputBuffers)", x.Pos(), "a stream's output queue is removed from the relay: DATA (and the RST_STREAM/trailers behind it) still waiting for window credit become unreachable and are never sent")
 				}
@@ -1182,7 +1226,7 @@ func c10r7(r *R) {
 	}
 	good := false
 	if rf != nil {
-		buf := rf.Common().Args[1]
+		buf := refArgs(rf.Common())[1]
 		cmp := calls(fp, nameIs("bytes.Equal"))
 		wr := calls(fp, func(s string) bool { return s == "invoke io.Writer.Write" })
 		good = len(cmp) == 1 && cmp[0].Common().Args[0] == buf && describe(cmp[0].Common().Args[1]) == "martian/h2.connectionPreface" && len(wr) == 1 &&
@@ -1214,7 +1258,7 @@ func shortReadRule(r *R, rule string, pkgs []string) {
 			if !ok || !c.Common().IsInvoke() || c.Common().Method.Name() != "Read" || len(c.Common().Args) != 1 {
 				return
 			}
-			if typeStr(c.Common().Args[0].Type()) != "[]byte" {
+			if typeStr(refArgs(c.Common())[0].Type()) != "[]byte" {
 				return
 			}
 			nUsed := false
@@ -1243,7 +1287,7 @@ func c10r8(r *R) {
 		}
 		filled := false
 		for _, c := range calls(fn, nameIs("builtin copy")) {
-			if c.Common().Args[0] == ssa.Value(ms) && instrDominates(c.(ssa.Instruction), at) {
+			if refArgs(c.Common())[0] == ssa.Value(ms) && instrDominates(c.(ssa.Instruction), at) {
 				filled = true
 			}
 		}
@@ -1260,7 +1304,7 @@ func c10r8(r *R) {
 			return
 		}
 		n++
-		va := variadicArgs(c.Common().Args[1])
+		va := variadicArgs(refArgs(c.Common())[1])
 		if len(va) != 1 {
 			r.undecided("splitIntoChunks#append", c.Pos(), "unexpected append shape")
 			return
